@@ -226,3 +226,22 @@ def search(seed, broken, budget):
         r = gen_recipe(rng, "quick")
         cases.append({"id": f"s{i}", "recipe": r, "align": rng.choice([8192, 512, 65536]), "queries": gen_queries(rng, r, 12)})
     return cases
+
+
+# ---- adapters used by C08 / C13
+def open_impl(case, built):
+    from dissect.hypervisor.disk.vhd import VHD
+    return VHD(built.files["a"].open())
+
+
+def stream_prefix(case, built):
+    return f"vhd.stream a {case['align']}"
+
+
+def open_line(case, built):
+    return "vhd.open a"
+
+
+def truth_reader(case):
+    t = Truth(case["recipe"])
+    return t.size, t.read, 512
